@@ -11,6 +11,7 @@ enum flavour { F_POINT, F_SCAN, F_SHAPE, F_FAULT };
 struct gen_params {
   flavour fl = F_POINT;
   unsigned size = 200;  // upper bound for universe size; ops scale with it
+  bool short_keys = false;  // byte-string keys of at most 8 bytes
 };
 
 namespace gdetail {
@@ -227,7 +228,7 @@ inline scase generate_case(vrng& r, int cfg, const gen_params& gp, stats* st) {
     else if (b == 1) usize = std::min(gp.size, 40u);
     else if (b == 2) usize = std::min(gp.size, 120u);
   }
-  universe u = u64 ? gen_universe_u64(r, usize) : gen_universe_bytes(r, usize);
+  universe u = u64 ? gen_universe_u64(r, usize) : gen_universe_bytes(r, usize, gp.short_keys);
   if (u.keys.empty()) u.keys.push_back(u64 ? u64_to_be(1) : std::string("a"));
   if (st) st->inc("universe." + u.kind);
   const std::size_t un = u.keys.size();
